@@ -82,9 +82,14 @@ func (ex *Exec) execLoopCut(s *ast.ForStmt, lc *LoopContract, ord int) ctl {
 		ex.execStmt(s.Post)
 	}
 	pctx := mk(false)
+	var endHints []*Term
+	for _, u := range lc.Uses {
+		endHints = append(endHints, pctx.tryTerm(u)) // the same hints, instantiated on the state after the body
+	}
 	for _, iv := range lc.Invariants {
 		o := ex.oblige("loop", fmt.Sprintf("%d:preserve:%s", ord, iv.Name), pctx.term(iv.Expr), iv.Text)
 		o.Props = iv.Props
+		o.Hyps = append(o.Hyps, endHints...)
 	}
 	panic(pathEnd{"loop back-edge"})
 }
